@@ -684,6 +684,63 @@ fn typed_tag(q: &TypedQuery, outcome: &str, nrows: usize, r: &RefOut) -> String 
     format!("typed:{}|g{}|h{}|w{}|{}|rows{}|d10{}|d15{}|code-choice{}", names.join(","), q.group.len(), q.having.is_some() as u8, q.wher.is_some() as u8, outcome, nrows.min(3), r.d10 as u8, r.d15 as u8, cc as u8)
 }
 
+// ---------- REAL VARIANCE / STDDEV against the exact variance (finding D76, open) ----------
+
+/// The population variance of finite REALs computed EXACTLY: every REAL is an integer multiple of a power of two; with the
+/// values scaled to integers `a_i` (common exponent `emin`) and shifted by the first (a variance does not change under a
+/// shift — exact in rationals) the variance is `(n·Σd² − (Σd)²) / n² · 4^emin`, numerator and denominator formed in `i128`
+/// with checked operations. Returned as the REAL nearest to within two roundings (conversion of the numerator, one division;
+/// the power of two is exact). `None`: a value is not finite or the integers do not fit (then the oracle abstains).
+pub fn exact_real_variance(xs: &[f64]) -> Option<f64> {
+    if xs.is_empty() || xs.iter().any(|x| !x.is_finite()) { return None; }
+    let parts: Vec<(i128, i32)> = xs.iter().map(|x| {
+        let b = x.to_bits();
+        let e = ((b >> 52) & 0x7ff) as i32;
+        let m = (b & ((1u64 << 52) - 1)) as i128;
+        let (m, e) = if e == 0 { (m, -1074) } else { (m | (1i128 << 52), e - 1075) };
+        (if b >> 63 == 1 { -m } else { m }, e)
+    }).collect();
+    let emin = parts.iter().filter(|(m, _)| *m != 0).map(|(_, e)| *e).min().unwrap_or(0);
+    let mut a: Vec<i128> = Vec::new();
+    for (m, e) in &parts {
+        if *m == 0 { a.push(0); continue; }
+        let sh = (*e - emin) as u32;
+        if sh > 60 { return None; }
+        a.push(m.checked_mul(1i128 << sh)?);
+    }
+    let n = a.len() as i128;
+    let (mut sd, mut sq) = (0i128, 0i128);
+    for x in &a {
+        let d = x.checked_sub(a[0])?;
+        sd = sd.checked_add(d)?;
+        sq = sq.checked_add(d.checked_mul(d)?)?;
+    }
+    let num = n.checked_mul(sq)?.checked_sub(sd.checked_mul(sd)?)?;
+    if 2 * emin < -1000 || 2 * emin > 1000 { return None; }
+    Some(num as f64 / (n * n) as f64 * 2f64.powi(2 * emin))
+}
+
+/// what the CODE computes for REAL arguments (finding D76 predicts exactly this cell): running REAL sums of `x` and `x·x` in
+/// arrival order from `0.0`, then `(Σx² − (Σx)²/n)/n` in REAL arithmetic, a negative result replaced by `0.0`
+pub fn onepass_real_variance(xs: &[f64]) -> f64 {
+    let (mut s, mut q) = (0.0f64, 0.0f64);
+    for x in xs { s += *x; q += *x * *x; }
+    let n = xs.len() as f64;
+    let v = (q - (s * s) / n) / n;
+    if v < 0.0 { 0.0 } else { v }
+}
+
+/// the verdict on a (VARIANCE, STDDEV) pair of cells over the REAL values `xs`: `Ok` = both within a relative 1e-9 of the exact
+/// variance / its square root; `Err(true)` = not within, and bit for bit what the one-pass formula gives (finding D76);
+/// `Err(false)` = anything else; `None` = the exact variance is not available (the oracle abstains)
+pub fn judge_real_variance(xs: &[f64], got_var: f64, got_sd: f64) -> Option<Result<(), bool>> {
+    let exact = exact_real_variance(xs)?;
+    let within = |g: f64, e: f64| g == e || (g - e).abs() <= 1e-9 * e.abs();
+    if within(got_var, exact) && within(got_sd, exact.sqrt()) { return Some(Ok(())); }
+    let p = onepass_real_variance(xs);
+    Some(Err(got_var.to_bits() == p.to_bits() && got_sd.to_bits() == p.sqrt().to_bits()))
+}
+
 /// one typed statement over one input: the implementation's table (ExecutionEngine, batch configuration) against the
 /// independent reference, classification of a deviation, and the same case through FileExecutor for the Lean model
 fn typed_case(run: &mut Run, table: &sqlgrep::data_model::TableDefinition, q: &TypedQuery, lines: &[String], stream: &str) {
@@ -871,6 +928,61 @@ pub fn run(p: &Params) -> Run {
             let result = run_files(&prepared, &files);
             if let Some(case) = batch_case(&prepared, b"", &files, None) {
                 run.case_with_desc(case, result.wire(), format!("bigint-variance|shape{}|n{}|{}", shape, n.min(3), outcome), desc);
+            }
+        }
+    }
+    // ---- stream 3b: VARIANCE / STDDEV of REAL values with a large mean and a small spread (finding D76, OPEN) ----
+    // For REAL arguments the cell is the one-pass formula in REAL arithmetic: with values around 1e6 … 1e9 whose spread is a few
+    // units or tenths, Σx² and (Σx)²/n agree in their leading ~16 digits and the subtraction leaves rounding noise. The oracle is
+    // the EXACT variance (`exact_real_variance`, integers) with a relative tolerance of 1e-9; a cell outside it is the known finding
+    // D76 only if it is bit for bit the one-pass formula's value (`judge_real_variance`), anything else is a violation. Small
+    // means (the formula is accurate there) exercise the passing branch. The first two cases are the documented witnesses.
+    let m3b = p.n(160, 4000);
+    for i in 0..m3b {
+        let texts: Vec<String> = match i {
+            0 => vec!["100000001.0".to_owned(), "100000002.0".to_owned(), "100000003.0".to_owned()],
+            1 => vec!["1000000.1".to_owned(), "1000000.2".to_owned(), "1000000.3".to_owned()],
+            _ => {
+                let n = 2 + rng.below(5);
+                let base: i64 = *rng.pick(&[1_000_000i64, 10_000_000, 100_000_000, 1_000_000_000, 123_456_789, 500_000_000, 10, 0, 3, -100_000_000, 65_536]);
+                let shape = rng.below(4); // 0: equal values, 1: integers base+k, 2: tenths, 3: quarters / halves (exactly representable)
+                let k0 = rng.below(10) as i64;
+                (0..n).map(|_| match shape {
+                    0 => format!("{}.{}", base, k0),
+                    1 => format!("{}.0", base + rng.range(0, 10)),
+                    2 => format!("{}.{}", base, rng.below(10)),
+                    _ => format!("{}.{}", base + rng.range(0, 3), rng.pick(&["0", "25", "5", "75"])),
+                }).collect()
+            }
+        };
+        let xs: Vec<f64> = texts.iter().map(|t| t.parse::<f64>().unwrap()).collect();
+        let lines: Vec<String> = texts.iter().map(|t| format!("a;;;{};~;;;", t)).collect();
+        let text = "SELECT VARIANCE(r), STDDEV(r), COUNT(*) FROM t";
+        let desc = format!("defs={} query={} input={:?}", C04_DEF, text, lines);
+        run.oracle_checks += 1;
+        let outcome = match run_engine_batch(C04_DEF, text, &lines) {
+            RowsOutcome::Rows { rows: got, .. } => match got.first().map(|r| r.as_slice()) {
+                Some([Value::Float(v), Value::Float(sd), Value::Int(c)]) if got.len() == 1 && *c == xs.len() as i64 => match judge_real_variance(&xs, v.0, sd.0) {
+                    Some(Ok(())) => "ok",
+                    Some(Err(known)) => {
+                        let exact = exact_real_variance(&xs).unwrap();
+                        run.fail(desc.clone(), if known { "D76:real-variance-cancellation" } else { "real-variance-differs-from-exact-variance" },
+                            format!("VARIANCE = {:?}, STDDEV = {:?}; the exact variance of the values is {:?} (square root {:?}); the one-pass formula (Σx² − (Σx)²/n)/n in REAL arithmetic gives {:?}", v.0, sd.0, exact, exact.sqrt(), onepass_real_variance(&xs)));
+                        if known { "d76" } else { "differs" }
+                    }
+                    None => { run.count("oracle-abstains:real-variance"); "abstain" }
+                },
+                _ => { run.fail(desc.clone(), "aggregate-table-differs-from-reference", format!("implementation table {:?}: one row (VARIANCE, STDDEV, {}) expected", got, xs.len())); "shape" }
+            },
+            RowsOutcome::Error(e) => { run.fail(desc.clone(), "aggregate-error-on-typed-statement", format!("implementation reports `{}`", e)); "err" }
+            RowsOutcome::Panic(msg) => { run.fail(desc.clone(), "panic:aggregate", msg); "panic" }
+        };
+        run.count(&format!("real-variance:{}", outcome));
+        if let Ok(prepared) = prepare(C04_DEF, text) {
+            let files = vec![join_lines(&lines)];
+            let result = run_files(&prepared, &files);
+            if let Some(case) = batch_case(&prepared, b"", &files, None) {
+                run.case_with_desc(case, result.wire(), format!("real-variance|n{}|{}", xs.len().min(3), outcome), desc);
             }
         }
     }
